@@ -285,6 +285,14 @@ impl VoiceOracle {
                     });
                 }
                 _ => {
+                    // every site that exists before and after is paired with itself in every
+                    // maximum matching: then no surviving old site can be left over as a donor
+                    let survivors_forced = new.sites.iter().enumerate().all(|(jj, v2)| {
+                        match self.sites.iter().position(|s| s.voice.id == v2.id) {
+                            Some(ii) => oracle::forced_pair(old_shapes, new_shapes, ii, jj),
+                            None => true,
+                        }
+                    });
                     let inserted = matches!(new.edit, Edit::Insert { id, .. } if id == nv.id)
                         && oracle::forced_fresh(old_shapes, new_shapes, j);
                     // A replacing site is new code too. It can only inherit cells from the site
@@ -295,7 +303,8 @@ impl VoiceOracle {
                         Edit::Replace { old_id, new_id, .. } if *new_id == nv.id => {
                             match self.sites.iter().position(|s| s.voice.id == *old_id) {
                                 Some(i) => {
-                                    oracle::forced_fresh(old_shapes, new_shapes, j)
+                                    survivors_forced
+                                        && oracle::forced_fresh(old_shapes, new_shapes, j)
                                         && oracle::leaf_tokens(&old_shapes[i])
                                             .is_disjoint(&oracle::leaf_tokens(&new_shapes[j]))
                                 }
@@ -312,7 +321,8 @@ impl VoiceOracle {
                     // survive (deleted or replaced in the same save) could be carried into it
                     let multi_fresh = match &new.edit {
                         Edit::Multi(_) => {
-                            oracle::forced_fresh(old_shapes, new_shapes, j)
+                            survivors_forced
+                                && oracle::forced_fresh(old_shapes, new_shapes, j)
                                 && self.sites.iter().enumerate().all(|(i, os)| {
                                     new.sites.iter().any(|v| v.id == os.voice.id)
                                         || oracle::leaf_tokens(&old_shapes[i])
